@@ -1,7 +1,25 @@
 /* included by a unit right after it has declared its global input struct IN */
 #ifdef VERIF_NATIVE
+#include <string.h>
+unsigned long verif_in_size = sizeof(IN);
+void *verif_in_addr = &IN;
+const unsigned char *verif_in_override;	/* set by native_main.c in search / bytes mode */
 static void verif_load_in(void)
 {
+	if (verif_in_override) {
+		memcpy(&IN, verif_in_override, sizeof(IN));
+		return;
+	}
+	memset(&IN, 0, sizeof(IN));
 #include VERIF_REPLAY_FILE
+}
+#endif
+#ifdef VERIF_NATIVE
+#include <unistd.h>
+void verif_export_in(int fd)
+{
+	verif_load_in();
+	if (write(fd, &IN, sizeof(IN)) < 0)
+		_exit(2);
 }
 #endif
